@@ -103,7 +103,7 @@ def run(ck, facts, tier):
     # "business day" and "valid settlement day" are the predicates of C06 (union semantics, delegation): necessary conditions here too
     from rules import c06
     nd, tb = list(ck.not_decided), list(ck.trusted)
-    c06.run(ck, facts, tier, only={"R06.0", "R06.1", "R06.2"})
+    c06.run(ck, facts, tier, only={"R06.0", "R06.1", "R06.2", "R06.3", "R06.6"})          # R06.3/R06.6: a named or explicit combination is built from exactly the calendars named / given
     ck.not_decided[:], ck.trusted[:] = nd, tb
     from rules import pywrap
     pywrap.run_calendar_wrappers(ck, facts)          # what a Python user calls is the wrapper: it must hand its arguments to the core method unchanged
